@@ -582,29 +582,32 @@ def defs_on_spine(root: Node, allow_any_order=False) -> bool:
                         local_uses(x, acc)
         return acc
 
-    def walk(node, on_spine, dead=False):
+    def walk(node, on_spine, dead=False, in_any=False):
         dead = dead or node.hi == 0          # an element repeated zero times never executes: a name that occurs only there binds nothing
         here = on_spine and node.lo == 1 and node.hi == 1
         if node.kind in ("igroup", "ogroup") and node.name == "not" and node.lo == 1 and node.hi == 1 and not dead:
             # a name whose every occurrence lies inside this one $not lives and dies with the attempt to match its argument:
-            # the argument is a spine of its own (executed once per attempt, nothing of it survives the $not)
+            # the argument is a spine of its own (executed once per attempt, nothing of it survives the $not). Not so under an
+            # $and_any_order ancestor: there the definition is a definition inside an any-order group like any other (finding F21)
             inside = local_uses(node, {})
             if inside and all(uses.get(k) == v for k, v in inside.items()):
-                return all(walk(c, True, dead) for c in node.children)
+                if in_any and not allow_any_order:
+                    return False
+                return all(walk(c, True, dead, in_any) for c in node.children)
         if node.is_def and not here:
             key = node.name if node.kind != "oreg" else node.extra[1]
             if not (dead and uses.get((node.kind[0], key), 0) == 1):
                 return False
         if node.kind == "igroup":
             inner = here and (node.name == "and" or (allow_any_order and node.name == "any"))     # every child of an any-order group executes exactly once
-            return all(walk(c, inner, dead) for c in node.children)
+            return all(walk(c, inner, dead, in_any or node.name == "any") for c in node.children)
         if node.kind == "item":
-            return all(walk(c, here, dead) for c in (node.children or []))
+            return all(walk(c, here, dead, in_any) for c in (node.children or []))
         if node.kind == "ogroup":
             inner = here and (node.name == "and" or (allow_any_order and node.name == "any"))
-            return all(walk(c, inner, dead) for c in node.children)
+            return all(walk(c, inner, dead, in_any or node.name == "any") for c in node.children)
         if node.kind == "oderef":
-            return all(walk(x, here and len(v) == 1, dead) for v in node.extra.values() for x in v if isinstance(x, Node))
+            return all(walk(x, here and len(v) == 1, dead, in_any) for v in node.extra.values() for x in v if isinstance(x, Node))
         return True
     return walk(root, True)
 
